@@ -393,7 +393,31 @@ let run_arr ic isvec tr op ss ts sid tid aid post =
   Printf.printf "%s S2=%d s2c=%s F=%s fc=%s s2s=%s E=0\n" line1 (iz s2.amgr) (show (il s2.aitems))
     (if useF then string_of_int (iz f2.amgr) else "-") (if useF then show (il f2.aitems) else "[]") (if post = "clear" then "A" else "-")
 
+(* direct run of the GENERATED Swap / MoveCtor on the raw fields recorded from the real objects (stage corr:generated-vs-code).
+   input: <op> <T|H> t1..t4 s1..s4 (fields in the generated parameter order; the first object is *this / the new object);
+   output: the eight fields afterwards.  movea = temporary(move(x)).Swap( *this): target and source afterwards. *)
+let gen_mode = Array.length Sys.argv > 1 && Sys.argv.(1) = "gen"
+let run_gen line =
+  match words line with
+  | [op; k; a1; a2; a3; a4; b1; b2; b3; b4] ->
+    let zi s = z (int_of_string s) in
+    let (a1, a2, a3, a4, b1, b2, b3, b4) = (zi a1, zi a2, zi a3, zi a4, zi b1, zi b2, zi b3, zi b4) in
+    let swap x1 x2 x3 x4 y1 y2 y3 y4 = if k = "T" then Gen_TreeSet2.coq_Swap x1 x2 x3 x4 y1 y2 y3 y4 else Gen_HashSet2.coq_Swap x1 x2 x3 x4 y1 y2 y3 y4 in
+    let mctor x1 x2 x3 x4 y1 y2 y3 y4 = if k = "T" then Gen_TreeSet3.coq_MoveCtor x1 x2 x3 x4 y1 y2 y3 y4 else Gen_HashSet3.coq_MoveCtor x1 x2 x3 x4 y1 y2 y3 y4 in
+    let (((((((r1, r2), r3), r4), r5), r6), r7), r8) =
+      (match op with
+       | "swap" -> swap a1 a2 a3 a4 b1 b2 b3 b4
+       | "movec" -> mctor a1 a2 a3 a4 b1 b2 b3 b4
+       | "movea" ->
+         let (((((((m1, m2), m3), m4), s1), s2), s3), s4) = mctor (z 0) (z 0) (z 0) (z 0) b1 b2 b3 b4 in
+         let (((((((_, _), _), _), t1), t2), t3), t4) = swap m1 m2 m3 m4 a1 a2 a3 a4 in
+         (((((((t1, t2), t3), t4), s1), s2), s3), s4)
+       | _ -> failwith "gen op") in
+    Printf.printf "%d %d %d %d %d %d %d %d\n" (iz r1) (iz r2) (iz r3) (iz r4) (iz r5) (iz r6) (iz r7) (iz r8)
+  | _ -> print_endline "?"
+
 let () = iter_lines (fun line ->
+  if gen_mode then run_gen line else
   match words line with
   | trs :: kind :: op :: ss :: ts :: sid :: tid :: aid :: post :: rest ->
     let (sst, tst, est) = (match rest with [a; b] -> (a, b, "*") | [a; b; c] -> (a, b, c) | _ -> ("*", "*", "*")) in
